@@ -608,3 +608,94 @@ theorem parse_write (lay : Layout) (hl : lay.WsOnly) (j : J) (hj : TextOk j = tr
   simp [skipWs]
 
 end SlipVerif.Json
+
+namespace SlipVerif.Json
+open J
+
+/-! ### several documents in one text -/
+
+
+/-- documents one after the other, each preceded by its separator -/
+def writeDocs (lay : Layout) : List (List Char × J) → List Char
+  | [] => []
+  | (sep, j) :: rest => sep ++ (writeV lay 0 j ++ writeDocs lay rest)
+
+theorem skipWs_all_ws (ws : List Char) (h : ws.all isWs = true) : skipWs ws = [] := by
+  have := skipWs_ws_append ws [] h
+  simpa [skipWs] using this
+
+theorem RestOk_ws (ws : List Char) (h : ws.all isWs = true) : RestOk ws := by
+  cases ws with
+  | nil => exact RestOk_nil
+  | cons c tl =>
+    simp only [List.all_cons, Bool.and_eq_true] at h
+    exact RestOk_cons c tl (isWs_not_num c h.1)
+
+theorem parseManyAux_writeDocs (lay : Layout) (hl : lay.WsOnly) :
+    ∀ (ds : List (List Char × J)) (tail : List Char) (n : Nat),
+      (∀ d ∈ ds, d.1.all isWs = true ∧ TextOk d.2 = true) → (∀ d ∈ ds.tail, d.1 ≠ []) →
+      tail.all isWs = true → ds.length < n →
+      parseManyAux n (writeDocs lay ds ++ tail) = .ok (ds.map (·.2)) := by
+  intro ds
+  induction ds with
+  | nil =>
+    intro tail n _ _ ht hn
+    obtain ⟨m, rfl⟩ : ∃ m, n = m + 1 := ⟨n - 1, by simp at hn; omega⟩
+    simp [parseManyAux, writeDocs, skipWs_all_ws tail ht]
+  | cons d rest ih =>
+    intro tail n hds hsep ht hn
+    obtain ⟨sep, j⟩ := d
+    obtain ⟨m, rfl⟩ : ∃ m, n = m + 1 := ⟨n - 1, by simp at hn; omega⟩
+    have hd := hds (sep, j) (by simp)
+    have hrest : ∀ d ∈ rest, d.1.all isWs = true ∧ TextOk d.2 = true := fun d h => hds d (by simp [h])
+    obtain ⟨c, tl, hc, hcw, _, _⟩ := writeV_head lay 0 j hd.2
+    -- what follows the document does not continue a number
+    have hR : RestOk (writeDocs lay rest ++ tail) := by
+      cases rest with
+      | nil => simpa [writeDocs] using RestOk_ws tail ht
+      | cons d2 rest2 =>
+        obtain ⟨sep2, j2⟩ := d2
+        have hne : sep2 ≠ [] := hsep (sep2, j2) (by simp)
+        have hws2 := (hds (sep2, j2) (by simp)).1
+        cases sep2 with
+        | nil => exact absurd rfl hne
+        | cons w ws =>
+          simp only [List.all_cons, Bool.and_eq_true] at hws2
+          simp only [writeDocs, List.cons_append]
+          exact RestOk_cons w _ (isWs_not_num w hws2.1)
+    have hlen := need_le_length lay j hd.2 0
+    have hP := parseValue_writeV lay hl j hd.2 0 ((tl ++ (writeDocs lay rest ++ tail)).length + 2) [] (writeDocs lay rest ++ tail)
+      (by simp) (by rw [hc] at hlen; simp only [List.length_cons, List.length_append] at hlen ⊢; omega) hR
+    simp only [List.nil_append] at hP
+    have hih := ih tail m hrest (fun d h => hsep d (by
+      cases rest with
+      | nil => simp at h
+      | cons _ r2 => simp only [List.tail_cons] at h ⊢; exact List.mem_cons_of_mem _ h)) ht (by simp at hn; omega)
+    simp only [writeDocs, List.append_assoc, parseManyAux]
+    rw [skipWs_ws_append _ _ hd.1]
+    rw [hc] at hP ⊢
+    simp only [List.cons_append] at hP ⊢
+    rw [skipWs_cons_nonws _ _ hcw]
+    simp only [hP, hih, List.map_cons]
+
+
+mutual
+theorem need_pos : (j : J) → 0 < need j
+  | .arr _ => by simp [need]; omega
+  | .obj _ => by simp [need]; omega
+  | .null | .bool _ | .int _ | .flo _ | .str _ => by simp [need]
+end
+
+theorem length_writeDocs (lay : Layout) (ds : List (List Char × J)) (h : ∀ d ∈ ds, TextOk d.2 = true) :
+    ds.length ≤ (writeDocs lay ds).length := by
+  induction ds with
+  | nil => simp [writeDocs]
+  | cons d rest ih =>
+    obtain ⟨sep, j⟩ := d
+    have h1 := need_le_length lay j (h (sep, j) (by simp)) 0
+    have h2 := need_pos j
+    have h3 := ih (fun d hd => h d (by simp [hd]))
+    simp only [writeDocs, List.length_cons, List.length_append]
+    omega
+
+end SlipVerif.Json
